@@ -61,11 +61,32 @@ func c42(c *engine.Ctx) {
 	if wr == nil || rd == nil || mk == nil {
 		return
 	}
-	all := func(f *engine.Fn) []*engine.Fn { return append([]*engine.Fn{f}, f.AllLits()...) }
+	// scope: the anchored function, the private functions of the package it
+	// (transitively) calls, and all their literals — sealing/opening may have
+	// been extracted into a helper
+	scope := func(f *engine.Fn) []*engine.Fn {
+		var out []*engine.Fn
+		for _, x := range niCalleeClosure(p, f) {
+			if x.Pkg != f.Pkg || (x != f && x.Obj != nil && x.Obj.Exported()) {
+				continue
+			}
+			out = append(out, x)
+			out = append(out, x.AllLits()...)
+		}
+		return out
+	}
+	// the function that performs the Open (Read itself or a helper of it)
+	rdF := rd
+	for _, x := range scope(rd) {
+		if len(x.CallsTo("crypto/cipher.(AEAD).Open")) > 0 {
+			rdF = x
+			break
+		}
+	}
 
 	// ---- (1) nonce pairing ----
 	nSeal := 0
-	for _, f := range all(wr) {
+	for _, f := range scope(wr) {
 		info := f.Info()
 		g := f.Graph()
 		incs := f.CallsTo(P + "incrNonce")
@@ -94,22 +115,29 @@ func c42(c *engine.Ctx) {
 			}
 			c.Check("nonce-pairing", wr.Name+" Seal then incrNonce(sendNonce)", s.Pos(), ok, why)
 		}
-		c.Check("nonce-pairing", f.Name+" one incrNonce per Seal", f.Pos(), len(incs) == len(seals), "")
+		if len(seals) > 0 || len(incs) > 0 {
+			c.Check("nonce-pairing", wr.Name+" one incrNonce per Seal", f.Pos(), len(incs) == len(seals), "")
+		}
 	}
 	c.Floor("nonce-pairing (Seal)", nSeal, 1)
 
 	{
-		f := rd
+		f := rdF
 		info := f.Info()
 		g := f.Graph()
 		opens := f.CallsTo("crypto/cipher.(AEAD).Open")
 		incs := f.CallsTo(P + "incrNonce")
 		c.Floor("nonce-pairing (Open)", len(opens), 1)
-		c.Check("nonce-pairing", f.Name+" one incrNonce per Open", f.Pos(), len(incs) == len(opens) && len(rd.AllLits()) == 0, "")
+		nOpenAll, nIncAll := 0, 0
+		for _, x := range scope(rd) {
+			nOpenAll += len(x.CallsTo("crypto/cipher.(AEAD).Open"))
+			nIncAll += len(x.CallsTo(P + "incrNonce"))
+		}
+		c.Check("nonce-pairing", rd.Name+" one incrNonce per Open", f.Pos(), len(incs) == len(opens) && nOpenAll == len(opens) && nIncAll == len(incs), "")
 		for _, o := range opens {
 			okA := niSelField(info, niRecvExpr(o.Call), fRecvA)
 			okN := len(o.Call.Args) == 4 && niMentionsField(info, o.Call.Args[1], fRecvN) && !niMentionsField(info, o.Call.Args[1], fSendN)
-			c.Check("key-separation", f.Name+" Open uses recvAead with recvNonce", o.Pos(), okA && okN, "")
+			c.Check("key-separation", rd.Name+" Open uses recvAead with recvNonce", o.Pos(), okA && okN, "")
 			// plaintext buffer = base object of arg 0 (frame[:0])
 			var frame types.Object
 			if len(o.Call.Args) == 4 {
@@ -137,7 +165,7 @@ func c42(c *engine.Ctx) {
 					ok, why = true, "incrNonce(recvNonce) only after Open returned nil"
 				}
 			}
-			c.Check("nonce-pairing", f.Name+" Open checked then incrNonce(recvNonce)", o.Pos(), ok, why)
+			c.Check("nonce-pairing", rd.Name+" Open checked then incrNonce(recvNonce)", o.Pos(), ok, why)
 			// every read of the plaintext is after the increment (hence after the checked Open)
 			nuse := 0
 			bad := ""
@@ -164,31 +192,20 @@ func c42(c *engine.Ctx) {
 					}
 				})
 			}
-			c.Check("nonce-pairing", f.Name+" plaintext read only after authenticated Open", o.Pos(), bad == "" && nuse >= 2, bad)
+			c.Check("nonce-pairing", rd.Name+" plaintext read only after authenticated Open", o.Pos(), bad == "" && nuse >= 1, bad)
 		}
 	}
-	callers := engine.CallerSet(p.RefsToFunc(P + "incrNonce"))
-	c.Check("who-may-call", P+"incrNonce", token.NoPos, len(engine.SetDiff(callers, []string{SC + "Write", SC + "Read"})) == 0 && len(callers) == 2, "callers: "+join(callers))
+	incRefs := p.RefsToFunc(P + "incrNonce")
+	incExtra := p.UnexpectedCallers(incRefs, []string{SC + "Write", SC + "Read"})
+	c.Check("who-may-call", P+"incrNonce", token.NoPos, len(incExtra) == 0 && len(incRefs) == 2, "callers outside Write/Read and their private helpers: "+join(incExtra))
 
 	// ---- (2) key separation: users and writers of the four fields ----
-	users := func(field *types.Var) []string {
-		m := map[string]bool{}
-		for _, r := range p.RefsTo(func(o types.Object) bool { return o == types.Object(field) }) {
-			if r.Fn != nil {
-				m[r.Fn.Root().Name] = true
-			} else {
-				m["<package-level>"] = true
-			}
-		}
-		return niSortedSet(m)
-	}
 	for _, x := range []struct {
 		f    *types.Var
 		name string
 		user string
 	}{{fSendA, "sendAead", SC + "Write"}, {fSendN, "sendNonce", SC + "Write"}, {fRecvA, "recvAead", SC + "Read"}, {fRecvN, "recvNonce", SC + "Read"}} {
-		us := users(x.f)
-		extra := engine.SetDiff(us, []string{x.user, P + "MakeSecretConnection"})
+		extra := p.UnexpectedCallers(p.RefsTo(func(o types.Object) bool { return o == types.Object(x.f) }), []string{x.user, P + "MakeSecretConnection"})
 		c.Check("key-separation", P+"SecretConnection."+x.name+" used by one direction only", token.NoPos, len(extra) == 0, "other users: "+join(extra))
 		var nonLit []string
 		for _, w := range p.FieldWrites(x.f) {
@@ -328,10 +345,27 @@ func c42Constructor(c *engine.Ctx, p *engine.Prog, mk *engine.Fn, fSendA, fRecvA
 	// success returns
 	eph, eobjs := niBoundCall(mk, P+"shareEphPubKey")
 	dh, dhobjs := niBoundCall(mk, P+"computeDHSecret")
-	au, aobjs := niBoundCall(mk, P+"shareAuthSignature")
 	gen, gobjs := niBoundCall(mk, P+"genEphKeys")
-	if eph == nil || dh == nil || au == nil || gen == nil || len(eobjs) != 2 || len(dhobjs) != 2 || len(aobjs) != 2 || len(gobjs) != 2 {
-		c.Undecided(rule, mk.Name, "handshake steps (genEphKeys, shareEphPubKey, computeDHSecret, shareAuthSignature) not found as single bound calls")
+	if eph == nil || dh == nil || gen == nil || len(eobjs) != 2 || len(dhobjs) != 2 || len(gobjs) != 2 {
+		c.Undecided(rule, mk.Name, "key-exchange steps (genEphKeys, shareEphPubKey, computeDHSecret) not found as single bound calls")
+		return
+	}
+	// the authentication step may sit in mk or in a private helper called from it
+	auD := mk.DeepCallsTo(2, P+"shareAuthSignature")
+	if len(auD) != 1 {
+		c.Undecided(rule, mk.Name, "expected exactly one (deep) call of shareAuthSignature")
+		return
+	}
+	A := auD[0].Inner.Fn
+	au := auD[0].Inner
+	ainfo := A.Info()
+	aobjs := niAssignedFromCall(A, au)
+	chalA := challenge
+	if A != mk {
+		chalA = niParamMap(mk, auD[0].Outer.Call, A)[challenge]
+	}
+	if len(aobjs) != 2 || aobjs[0] == nil || chalA == nil {
+		c.Undecided(rule, mk.Name, "shareAuthSignature result not bound / challenge not passed to the authentication helper")
 		return
 	}
 	// data flow of the steps
@@ -340,23 +374,51 @@ func c42Constructor(c *engine.Ctx, p *engine.Prog, mk *engine.Fn, fSendA, fRecvA
 	c.Check(rule, mk.Name+" secrets derived from the DH result", dv.Pos(), len(dv.Call.Args) == 2 && engine.ObjOf(info, dv.Call.Args[0]) == dhobjs[0], "")
 	// local signature over the challenge
 	okSign := false
-	for _, s := range mk.CallsTo("tm2/pkg/crypto/ed25519.(PrivKeyEd25519).Sign", "tm2/pkg/crypto.(PrivKey).Sign") {
-		objs := niAssignedFromCall(mk, s)
-		if len(s.Call.Args) == 1 && niMentionsObj(info, s.Call.Args[0], challenge) && len(objs) == 2 && len(au.Call.Args) == 3 && engine.ObjOf(info, au.Call.Args[2]) == objs[0] && objs[0] != nil {
+	for _, s := range A.CallsTo("tm2/pkg/crypto/ed25519.(PrivKeyEd25519).Sign", "tm2/pkg/crypto.(PrivKey).Sign") {
+		objs := niAssignedFromCall(A, s)
+		if len(s.Call.Args) == 1 && niMentionsObj(ainfo, s.Call.Args[0], chalA) && len(objs) == 2 && len(au.Call.Args) == 3 && engine.ObjOf(ainfo, au.Call.Args[2]) == objs[0] && objs[0] != nil {
 			okSign = true
 		}
 	}
 	c.Check(rule, mk.Name+" own signature is over the derived challenge", au.Pos(), okSign, "locPrivKey.Sign(challenge) must be what shareAuthSignature sends")
 	// verified key/signature come from the received message
 	msgObj := aobjs[0]
-	fromMsg := func(o types.Object, field string) bool {
-		d := niSingleDef(mk, o)
+	fromMsg := func(fn *engine.Fn, o types.Object, field string) bool {
+		if fn != A {
+			return false
+		}
+		d := niSingleDef(fn, o)
 		se, ok := ast.Unparen(d).(*ast.SelectorExpr)
-		return d != nil && ok && se.Sel.Name == field && engine.ObjOf(info, se.X) == msgObj
+		return d != nil && ok && se.Sel.Name == field && engine.ObjOf(fn.Info(), se.X) == msgObj
+	}
+	// verification: finds the VerifyBytes fact that holds at a site of mk
+	// (directly, or imported from the checked authentication helper) and
+	// returns mk's object for the verified key.
+	verified := func(at *engine.Site) (bool, string, types.Object) {
+		why := "no `remPubKey.VerifyBytes(challenge, remSignature)` fact holds here"
+		for _, cf := range niFactsDeep(mk, at, 2) {
+			finfo := cf.Info()
+			call, isCall := ast.Unparen(cf.Expr).(*ast.CallExpr)
+			if !isCall || !strings.HasSuffix(niCallee(finfo, call), ".VerifyBytes") {
+				continue
+			}
+			key := engine.ObjOf(finfo, niRecvExpr(call))
+			switch {
+			case !cf.Holds:
+				why = "reached when verification FAILED"
+			case len(niGateFacts(cf.Gate)) != 1:
+				why = "verification is combined with another condition: `" + engine.ExprString(cf.Gate.Cond) + "`"
+			case len(call.Args) != 2 || !niMentionsObj(finfo, call.Args[0], cf.Loc(challenge)):
+				why = "the message verified is not the derived challenge"
+			case !fromMsg(cf.Fn, key, "Key") || !fromMsg(cf.Fn, engine.ObjOf(finfo, call.Args[1]), "Sig"):
+				why = "key/signature verified are not the ones received in the auth message"
+			default:
+				return true, "only when the received key verified the received signature over the challenge", cf.Outer(key)
+			}
+		}
+		return false, why, nil
 	}
 	nret := 0
-	var verifySite *engine.Site
-	var verifiedKey types.Object
 	for _, r := range niReturns(mk) {
 		rs := r.Node.(*ast.ReturnStmt)
 		if len(rs.Results) != 2 || isNil(rs.Results[0]) {
@@ -366,36 +428,13 @@ func c42Constructor(c *engine.Ctx, p *engine.Prog, mk *engine.Fn, fSendA, fRecvA
 		for _, gd := range []struct {
 			n string
 			s *engine.Site
-		}{{"shareEphPubKey", eph}, {"computeDHSecret", dh}, {"shareAuthSignature", au}} {
+		}{{"shareEphPubKey", eph}, {"computeDHSecret", dh}} {
 			gr := g.CheckedGuard(gd.s, r)
 			c.Check(rule, mk.Name+" connection returned only after checked "+gd.n, r.Pos(), gr.OK && c39NilTestPasses(gr), gr.Why)
 		}
-		okV, whyV := false, "no `remPubKey.VerifyBytes(challenge, remSignature)` fact holds at the successful return"
-		for _, ft := range niFacts(g, r) {
-			call, isCall := ast.Unparen(ft.Expr).(*ast.CallExpr)
-			if !isCall || !strings.HasSuffix(niCallee(info, call), ".VerifyBytes") {
-				continue
-			}
-			key := engine.ObjOf(info, niRecvExpr(call))
-			switch {
-			case !ft.Holds:
-				whyV = "the connection is returned when verification FAILED"
-			case len(niGateFacts(ft.Gate)) != 1:
-				whyV = "verification is combined with another condition: `" + engine.ExprString(ft.Gate.Cond) + "`"
-			case len(call.Args) != 2 || !niMentionsObj(info, call.Args[0], challenge):
-				whyV = "the message verified is not the derived challenge"
-			case !fromMsg(key, "Key") || !fromMsg(engine.ObjOf(info, call.Args[1]), "Sig"):
-				whyV = "key/signature verified are not the ones received in the auth message"
-			default:
-				okV, whyV = true, "returned only when the received key verified the received signature over the challenge"
-				verifiedKey = key
-				for _, s := range mk.Calls() {
-					if s.Call == call {
-						verifySite = s
-					}
-				}
-			}
-		}
+		okA, whyA := niDeepChecked(mk, auD[0], r)
+		c.Check(rule, mk.Name+" connection returned only after checked shareAuthSignature", r.Pos(), okA, whyA)
+		okV, whyV, _ := verified(r)
 		c.Check(rule, mk.Name+" connection returned only after challenge verification", r.Pos(), okV, whyV)
 		c.Check(rule, mk.Name+" returns the constructed connection with nil error", r.Pos(), isNil(rs.Results[1]) && lit != nil && func() bool {
 			o := engine.ObjOf(info, rs.Results[0])
@@ -417,23 +456,16 @@ func c42Constructor(c *engine.Ctx, p *engine.Prog, mk *engine.Fn, fSendA, fRecvA
 		nw++
 		as, ok := w.Node.(*ast.AssignStmt)
 		s := w.Fn.SiteOf(w.Node)
-		switch {
-		case w.Fn != mk || !ok || len(as.Rhs) != 1 || s == nil:
+		if w.Fn != mk || !ok || len(as.Rhs) != 1 || s == nil {
 			bad = append(bad, w.Fn.Root().Name)
-		case verifySite == nil || !g.Dominates(verifySite, s):
-			bad = append(bad, "write not dominated by the verification")
-		case engine.ObjOf(info, as.Rhs[0]) != verifiedKey:
+			continue
+		}
+		okV, whyV, vkey := verified(s)
+		switch {
+		case !okV:
+			bad = append(bad, "write not gated by the verification: "+whyV)
+		case vkey == nil || engine.ObjOf(info, as.Rhs[0]) != vkey:
 			bad = append(bad, "value written is not the verified key")
-		default:
-			okGate := false
-			for _, ft := range niFacts(g, s) {
-				if call, isCall := ast.Unparen(ft.Expr).(*ast.CallExpr); isCall && ft.Holds && verifySite != nil && call == verifySite.Call {
-					okGate = true
-				}
-			}
-			if !okGate {
-				bad = append(bad, "write reachable when verification failed")
-			}
 		}
 	}
 	c.Check(rule, P+"SecretConnection.remPubKey written once, after verification, with the verified key", token.NoPos, len(bad) == 0 && nw == 1, join(bad))
@@ -680,7 +712,7 @@ func c42Frames(c *engine.Ctx, p *engine.Prog, wr, rd *engine.Fn) {
 		return niIntVal(f, d.Args[0], 0)
 	}
 	// writer (closure)
-	for _, f := range wr.AllLits() {
+	for _, f := range c42ScopeOf(p, wr) {
 		info := f.Info()
 		for _, s := range f.CallsTo("crypto/cipher.(AEAD).Seal") {
 			var dst, pt types.Object
@@ -720,46 +752,138 @@ func c42Frames(c *engine.Ctx, p *engine.Prog, wr, rd *engine.Fn) {
 				}
 			}
 			c.Check(rule, wr.Name+" frame = LE32(len(chunk)) ++ chunk", s.Pos(), okLen && okCopy, "")
-			// every assignment to chunk is data[:dataMaxSize] under dataMaxSize < len(data), or data otherwise
+			// every definition of chunk is data[:dataMaxSize], or the whole remaining data on the side
+			// where len(data) <= dataMaxSize — directly or as the result of a private helper
 			okChunk := chunk != nil
 			nasg := 0
-			engine.InspectBody(f, func(n ast.Node) {
-				as, ok := n.(*ast.AssignStmt)
-				if !ok || len(as.Lhs) != 1 || len(as.Rhs) != 1 || engine.ObjOf(info, as.Lhs[0]) != chunk || chunk == nil {
-					return
+			var bounded func(fn *engine.Fn, e ast.Expr, at *engine.Site) bool
+			bounded = func(fn *engine.Fn, e ast.Expr, at *engine.Site) bool {
+				finfo := fn.Info()
+				e = ast.Unparen(e)
+				if isNil(e) {
+					return true
 				}
-				nasg++
-				st := f.SiteOf(as)
-				if se, isS := ast.Unparen(as.Rhs[0]).(*ast.SliceExpr); isS {
-					if v, okv := niIntVal(f, se.High, 0); !okv || v != dMax || se.Low != nil {
-						okChunk = false
+				if se, isS := e.(*ast.SliceExpr); isS {
+					v, okv := niIntVal(fn, se.High, 0)
+					lo, okl := int64(0), true
+					if se.Low != nil {
+						lo, okl = niIntVal(fn, se.Low, 0)
 					}
-					return
+					return okv && okl && lo == 0 && v == dMax
 				}
-				// whole remaining data: must be on the side where len(data) <= dataMaxSize
-				src := engine.ObjOf(info, as.Rhs[0])
-				bounded := false
-				if st != nil {
-					for _, ft := range niFacts(f.Graph(), st) {
-						if cmp, isCmp := niAsCmp(ft); isCmp {
-							for _, cm := range []niCmp{cmp, cmp.niFlip()} {
-								if niIsLenOfObj(info, cm.X, src) && cm.Op == token.LEQ && niIsObj(info, cm.Y, dMaxO) {
-									bounded = true
-								}
+				src := engine.ObjOf(finfo, e)
+				if src == nil || at == nil {
+					return false
+				}
+				for _, ft := range niFacts(fn.Graph(), at) {
+					if cmp, isCmp := niAsCmp(ft); isCmp {
+						for _, cm := range []niCmp{cmp, cmp.niFlip()} {
+							if niIsLenOfObj(finfo, cm.X, src) && cm.Op == token.LEQ && niIsObj(finfo, cm.Y, dMaxO) {
+								return true
 							}
 						}
 					}
 				}
-				if !bounded {
-					okChunk = false
+				return false
+			}
+			// objBounded: every definition of obj in fn is bounded; a parameter is bounded when
+			// every caller passes a bounded value (the cut may be done by the caller of a helper)
+			var objBounded func(fn *engine.Fn, obj types.Object, depth int) bool
+			objBounded = func(fn *engine.Fn, obj types.Object, depth int) bool {
+				finfo := fn.Info()
+				if obj == nil || depth < 0 {
+					return false
 				}
-			})
-			c.Check(rule, wr.Name+" chunk never exceeds dataMaxSize", s.Pos(), okChunk && nasg >= 2, "")
+				root := fn.Root()
+				for i := 0; ; i++ {
+					po := paramObj(root, i)
+					if po == nil {
+						break
+					}
+					if po != obj {
+						continue
+					}
+					sites, complete := c49CallersOf(p, root)
+					if !complete || len(sites) == 0 || root.Obj == nil || root.Obj.Exported() {
+						return false
+					}
+					for _, cs := range sites {
+						if i >= len(cs.Call.Args) {
+							return false
+						}
+						a := cs.Call.Args[i]
+						if bounded(cs.Fn, a, cs) {
+							continue
+						}
+						if !objBounded(cs.Fn, engine.ObjOf(cs.Fn.Info(), a), depth-1) {
+							return false
+						}
+					}
+					return true
+				}
+				ndef := 0
+				okAll := true
+				engine.InspectBody(fn, func(n ast.Node) {
+					as, ok := n.(*ast.AssignStmt)
+					if !ok {
+						return
+					}
+					for i, l := range as.Lhs {
+						if engine.ObjOf(finfo, l) != obj {
+							continue
+						}
+						ndef++
+						st := fn.SiteOf(as)
+						if len(as.Lhs) == len(as.Rhs) {
+							if !bounded(fn, as.Rhs[i], st) {
+								okAll = false
+							}
+							continue
+						}
+						// chunk, rest = helper(data)
+						var h *engine.Fn
+						if call, isCall := ast.Unparen(as.Rhs[0]).(*ast.CallExpr); isCall && len(as.Rhs) == 1 {
+							if fo, _ := engine.ObjOf(finfo, call.Fun).(*types.Func); fo != nil {
+								h = p.FnOf(fo)
+							}
+						}
+						if h == nil {
+							okAll = false
+							continue
+						}
+						nr := 0
+						for _, r := range niReturns(h) {
+							rs := r.Node.(*ast.ReturnStmt)
+							if i >= len(rs.Results) {
+								okAll = false // bare return of named results: not recognised
+								continue
+							}
+							nr++
+							if !bounded(h, rs.Results[i], r) {
+								okAll = false
+							}
+						}
+						if nr == 0 {
+							okAll = false
+						}
+					}
+				})
+				return okAll && ndef >= 1
+			}
+			okChunk = okChunk && objBounded(f, chunk, 2)
+			nasg = 1
+			c.Check(rule, wr.Name+" chunk never exceeds dataMaxSize", s.Pos(), okChunk && nasg >= 1, "")
 		}
 	}
 	// reader
 	{
 		f := rd
+		for _, x := range c42ScopeOf(p, rd) {
+			if len(x.CallsTo("crypto/cipher.(AEAD).Open")) > 0 {
+				f = x
+				break
+			}
+		}
 		info := f.Info()
 		g := f.Graph()
 		for _, o := range f.CallsTo("crypto/cipher.(AEAD).Open") {
@@ -770,7 +894,7 @@ func c42Frames(c *engine.Ctx, p *engine.Prog, wr, rd *engine.Fn) {
 			ct := engine.ObjOf(info, o.Call.Args[2])
 			a, oka := bufSize(f, ct)
 			b, okb := bufSize(f, dst)
-			c.Check(rule, f.Name+" sealed frame = totalFrameSize + overhead, plaintext frame = totalFrameSize", o.Pos(), oka && okb && a == tot+ovh && b == tot, "")
+			c.Check(rule, rd.Name+" sealed frame = totalFrameSize + overhead, plaintext frame = totalFrameSize", o.Pos(), oka && okb && a == tot+ovh && b == tot, "")
 			okFull := false
 			for _, s := range f.CallsTo("io.ReadFull") {
 				if len(s.Call.Args) == 2 && engine.ObjOf(info, s.Call.Args[1]) == ct {
@@ -779,51 +903,82 @@ func c42Frames(c *engine.Ctx, p *engine.Prog, wr, rd *engine.Fn) {
 					}
 				}
 			}
-			c.Check(rule, f.Name+" whole sealed frame read (error checked) before Open", o.Pos(), okFull, "")
+			c.Check(rule, rd.Name+" whole sealed frame read (error checked) before Open", o.Pos(), okFull, "")
 			// length: LE32(frame), bounded by dataMaxSize before slicing frame[dataLenSize : dataLenSize+n]
 			nsl := 0
-			engine.InspectBody(f, func(n ast.Node) {
-				se, ok := n.(*ast.SliceExpr)
-				if !ok || engine.ObjOf(info, se.X) != dst || dst == nil || se.High == nil {
-					return
-				}
-				if v, okv := niIntVal(f, se.High, 0); okv && v == 0 {
-					return // frame[:0]
-				}
-				nsl++
-				s := f.SiteOf(se)
-				lo, okLo := niIntVal(f, se.Low, 0)
-				var ln types.Object
-				if be, isB := ast.Unparen(se.High).(*ast.BinaryExpr); isB && be.Op == token.ADD {
-					x, y := be.X, be.Y
-					if niIsObj(info, y, dLenO) {
-						x, y = y, x
+			// the slicing may happen in rd or in a private helper that receives the plaintext buffer
+			checkSlices := func(fn *engine.Fn, buf types.Object) {
+				finfo := fn.Info()
+				fg := fn.Graph()
+				engine.InspectBody(fn, func(n ast.Node) {
+					se, ok := n.(*ast.SliceExpr)
+					if !ok || engine.ObjOf(finfo, se.X) != buf || buf == nil || se.High == nil {
+						return
 					}
-					if niIsObj(info, x, dLenO) {
-						ln = engine.ObjOf(info, y)
+					if v, okv := niIntVal(fn, se.High, 0); okv && v == 0 {
+						return // frame[:0]
 					}
-				}
-				okForm := okLo && lo == dLen && ln != nil
-				okSrc := false
-				if d := niLocalDefCall(f, ln); d != nil && niCallee(info, d) == "encoding/binary.(littleEndian).Uint32" && len(d.Args) == 1 && engine.ObjOf(info, d.Args[0]) == dst {
-					okSrc = true
-				}
-				bounded := false
-				if s != nil && ln != nil {
-					for _, ft := range niFacts(g, s) {
-						if cmp, isCmp := niAsCmp(ft); isCmp {
-							for _, cm := range []niCmp{cmp, cmp.niFlip()} {
-								if engine.ObjOf(info, cm.X) == ln && cm.Op == token.LEQ && niIsObj(info, cm.Y, dMaxO) {
-									bounded = true
+					nsl++
+					s := fn.SiteOf(se)
+					lo, okLo := niIntVal(fn, se.Low, 0)
+					var ln types.Object
+					if be, isB := ast.Unparen(se.High).(*ast.BinaryExpr); isB && be.Op == token.ADD {
+						x, y := be.X, be.Y
+						if niIsObj(finfo, y, dLenO) {
+							x, y = y, x
+						}
+						if niIsObj(finfo, x, dLenO) {
+							ln = engine.ObjOf(finfo, y)
+						}
+					}
+					okForm := okLo && lo == dLen && ln != nil
+					okSrc := false
+					if d := niLocalDefCall(fn, ln); d != nil && niCallee(finfo, d) == "encoding/binary.(littleEndian).Uint32" && len(d.Args) == 1 && engine.ObjOf(finfo, d.Args[0]) == buf {
+						okSrc = true
+					}
+					bounded := false
+					if s != nil && ln != nil {
+						for _, ft := range niFacts(fg, s) {
+							if cmp, isCmp := niAsCmp(ft); isCmp {
+								for _, cm := range []niCmp{cmp, cmp.niFlip()} {
+									if engine.ObjOf(finfo, cm.X) == ln && cm.Op == token.LEQ && niIsObj(finfo, cm.Y, dMaxO) {
+										bounded = true
+									}
 								}
 							}
 						}
 					}
+					c.Check(rule, rd.Name+" chunk = frame[dataLenSize : dataLenSize+LE32(frame)]", se.Pos(), okForm && okSrc, "")
+					c.Check(rule, rd.Name+" declared length <= dataMaxSize before slicing", se.Pos(), bounded, "the slice must be on the false side of `chunkLength > dataMaxSize`")
+				})
+			}
+			checkSlices(f, dst)
+			for _, cs := range f.Calls() {
+				fo, _ := cs.Callee.(*types.Func)
+				h := p.FnOf(fo)
+				if h == nil || cs.Call == nil {
+					continue
 				}
-				c.Check(rule, f.Name+" chunk = frame[dataLenSize : dataLenSize+LE32(frame)]", se.Pos(), okForm && okSrc, "")
-				c.Check(rule, f.Name+" declared length <= dataMaxSize before slicing", se.Pos(), bounded, "the slice must be on the false side of `chunkLength > dataMaxSize`")
-			})
+				for i, a := range cs.Call.Args {
+					if engine.ObjOf(info, a) == dst && dst != nil && g.Dominates(o, cs) {
+						checkSlices(h, paramObj(h, i))
+					}
+				}
+			}
 			c.Floor(rule+" (reader slice)", nsl, 1)
 		}
 	}
+}
+
+// scopeOf: f, the unexported functions of its package it transitively calls, and their literals.
+func c42ScopeOf(p *engine.Prog, f *engine.Fn) []*engine.Fn {
+	var out []*engine.Fn
+	for _, x := range niCalleeClosure(p, f) {
+		if x.Pkg != f.Pkg || (x != f && x.Obj != nil && x.Obj.Exported()) {
+			continue
+		}
+		out = append(out, x)
+		out = append(out, x.AllLits()...)
+	}
+	return out
 }
